@@ -7,6 +7,7 @@ import (
 	"testing"
 	"time"
 
+	"github.com/pip-services3-gox/pip-services3-expressions-gox/calculator/variables"
 	"github.com/pip-services3-gox/pip-services3-expressions-gox/variants"
 	"pgregory.net/rapid"
 	"verif/pbt/evid"
@@ -429,6 +430,27 @@ func checkC20(c c20Case) *evid.Fail {
 					res = evid.F("equals-nil-true", "Equals(nil) returned true")
 					return
 				}
+			case "operand":
+				// the variant is used as the first operand of the library's own operators (the second operand is another
+				// slot) and as an argument of functions: using a value does not change it - the model stays as it is
+				o := slots[op.Src%nSlots]
+				for _, mgr := range []variants.IVariantOperations{variants.NewTypeUnsafeVariantOperations(), variants.NewTypeSafeVariantOperations()} {
+					mgr.Pow(v, o)
+					mgr.Add(v, o)
+					mgr.Negative(v)
+					mgr.Lsh(v, o)
+					mgr.In(v, o)
+					mgr.More(v, o)
+				}
+			case "viaVariable":
+				// the variant is handed to a calculator variable, which is then given another slot's variant and cleared
+				// within a collection: a variable holds a value, it does not write into it
+				vr := variables.NewVariable("held", v)
+				vr.SetValue(slots[op.Src%nSlots])
+				vr.SetValue(v)
+				vc := variables.NewVariableCollection()
+				vc.Add(vr)
+				vc.ClearValues()
 			}
 			if !invariant(step, op) {
 				return
@@ -501,7 +523,7 @@ func genC20Value(t *rapid.T) val {
 func TestC20_RapidSM(t *testing.T) {
 	rec := evid.New("C20", "TestC20_RapidSM", "C20", c20Rule)
 	defer finish(t, rec)
-	opsKinds := []string{"set", "set", "fromArray", "setByIndex", "setByIndex", "setLength", "getByIndex", "assign", "assignNil", "clone", "clone", "clear", "equals", "equals", "callerAppend", "callerAppend", "fillGap", "growFill"}
+	opsKinds := []string{"set", "set", "fromArray", "setByIndex", "setByIndex", "setLength", "getByIndex", "assign", "assignNil", "clone", "clone", "clear", "equals", "equals", "callerAppend", "callerAppend", "fillGap", "growFill", "operand", "viaVariable"}
 	runRapid(t, pick(40000, 300000), 20, func(rt *rapid.T) {
 		n := rapid.IntRange(1, 14).Draw(rt, "n")
 		var ops []c20Op
@@ -549,6 +571,7 @@ func TestC20_ExhaustiveShortHistories(t *testing.T) {
 		{Op: "equals", Slot: 0, Src: 1}, {Op: "getByIndex", Slot: 1, Idx: 0},
 		{Op: "set", Slot: 1, V: vArray()}, {Op: "callerAppend", Slot: 1}, {Op: "callerAppend", Slot: 0}, {Op: "fillGap", Slot: 1, Idx: 1, V: vInt(5)}, {Op: "growFill", Slot: 1, Idx: 1}, {Op: "fromArray", Slot: 0, V: vArray()},
 		{Op: "set", Slot: 0, V: vArray(vArray(vInt(1), vInt(2)), vArray(vInt(1), vInt(2)))}, {Op: "set", Slot: 1, V: vArray(vArray(vInt(1), vInt(2)), vArray(vInt(1), vInt(3)))},
+		{Op: "set", Slot: 1, V: vDouble(1.5)}, {Op: "operand", Slot: 1, Src: 0}, {Op: "viaVariable", Slot: 0, Src: 1}, {Op: "viaVariable", Slot: 1, Src: 0},
 	}
 	depth := pick(4, 5)
 	rec.Bounds = fmt.Sprintf("all histories of length 1..%d over %d operations on two variants (array set, scalar set, fromArray, index writes inside and past the end, setLength, clone both ways, assign, clear, equals, getByIndex)", depth, len(alpha))
